@@ -111,6 +111,11 @@ func (c *Coordinator) TaskCreated(ctx context.Context, task *taskmodel.Task) err
 	if err != nil {
 		return err
 	}
+	// an inactive task is validated but not scheduled; activating it (TaskUpdated) schedules it
+	if task.Status == string(taskmodel.TaskInactive) {
+		return nil
+	}
+
 	// func new schedulable task
 	// catch errors from offset and last scheduled
 	if err = c.sch.Schedule(t); err != nil {
@@ -120,7 +125,7 @@ func (c *Coordinator) TaskCreated(ctx context.Context, task *taskmodel.Task) err
 	return nil
 }
 
-// TaskUpdated releases the task if it is being disabled, and schedules it otherwise
+// TaskUpdated releases the task if it is (or is being) disabled, and schedules it otherwise
 func (c *Coordinator) TaskUpdated(ctx context.Context, from, to *taskmodel.Task) error {
 	sid := scheduler.ID(to.ID)
 	t, err := NewSchedulableTask(to)
@@ -128,8 +133,8 @@ func (c *Coordinator) TaskUpdated(ctx context.Context, from, to *taskmodel.Task)
 		return err
 	}
 
-	// if disabling the task, release it before schedule update
-	if to.Status != from.Status && to.Status == string(taskmodel.TaskInactive) {
+	// a task that is being disabled, or is updated while disabled, must not be scheduled: release it
+	if to.Status == string(taskmodel.TaskInactive) {
 		if err := c.sch.Release(sid); err != nil && err != taskmodel.ErrTaskNotClaimed {
 			return err
 		}
